@@ -12,6 +12,7 @@ Theorems about `FdtdxModel/C25.lean`, any design size, any point-symmetric odd-s
   C25_step_preserves         one loop iteration whose choice is good (`goodChoice`) preserves the invariant
   C25_run_invariant          the whole loop: if every iteration made a good choice, the final state has solid ∩ void = ∅,
                              and if the loop ended because every pixel is covered (`status = "done"`) then …
+  C25_circularBrush_sym / _centre   `circular_brush(p/q)` is odd-sized, point-symmetric and contains its centre (any rational diameter)
   C25_generator_partial      … the output is binary by construction, its solid region is ⋃ brush(touch_s) ∩ domain, its
                              void region is ⋃ brush(touch_v) ∩ domain, so every pixel of either region lies in a brush
                              footprint whose in-domain part is inside that region.
@@ -362,6 +363,36 @@ theorem C25_generator_partial (d : Dims) (b : Brush) (hs : Sym b) (neg : α → 
     exact (hvoid qi qj hq).mpr ⟨ti, tj, ht, hc⟩
 
 end loop
+
+/-! ### circular_brush meets the hypotheses on the brush -/
+
+theorem sqd_reflect (a c : Nat) (h : a ≤ 2 * c) : sqd (2 * c - a) c = sqd a c := by
+  unfold sqd
+  have e1 : 2 * c - a - c = c - a := by omega
+  have e2 : c - (2 * c - a) = a - c := by omega
+  rw [e1, e2, Nat.add_comm]
+
+/-- **`circular_brush(p/q)` is odd-sized (by construction: size = 2c+1), point-symmetric and contains its centre**, for
+every rational diameter — the hypotheses `Sym` and "odd size" of the theorems above are met by the brushes users build. -/
+theorem C25_circularBrush_sym (p q : Nat) : Sym (circularBrush p q) := by
+  intro a bb ha hb
+  simp only [circularBrush, Brush.size] at ha hb ⊢
+  rw [look_tab, look_tab]
+  have hi1 : inb ⟨2 * ((((if (p + q - 1) / q % 2 = 0 then (p + q - 1) / q + 1 else (p + q - 1) / q)) - 1) / 2) + 1,
+      2 * ((((if (p + q - 1) / q % 2 = 0 then (p + q - 1) / q + 1 else (p + q - 1) / q)) - 1) / 2) + 1⟩ a bb = true := by
+    simp [inb, ha, hb]
+  generalize ((if (p + q - 1) / q % 2 = 0 then (p + q - 1) / q + 1 else (p + q - 1) / q) - 1) / 2 = c at *
+  have hi2 : inb ⟨2 * c + 1, 2 * c + 1⟩ (2 * c - a) (2 * c - bb) = true := by
+    simp only [inb, Bool.and_eq_true, decide_eq_true_eq]; omega
+  rw [hi1, hi2, sqd_reflect a c (by omega), sqd_reflect bb c (by omega)]
+
+theorem C25_circularBrush_centre (p q : Nat) :
+    look (circularBrush p q).cells (circularBrush p q).c (circularBrush p q).c = true := by
+  simp only [circularBrush]
+  generalize ((if (p + q - 1) / q % 2 = 0 then (p + q - 1) / q + 1 else (p + q - 1) / q) - 1) / 2 = c
+  rw [look_tab]
+  have : c < 2 * c + 1 := by omega
+  simp [inb, sqd, this]
 
 /-! ### non-vacuity -/
 
